@@ -303,6 +303,29 @@ def number_queries():
                 yield f"$[?{a}{b}{c} < @.a]"
 
 
+def precise_number_queries():
+    """numbers whose shortest repr needs many digits / extreme exponents, each on a document holding
+    exactly that number and its two neighbouring doubles: the printed literal must denote the same
+    double, or the round trip selects a different node"""
+    import math
+    mants = ["1.23456789", "9.87654321012345", "1.5", "2.2250738585072014", "4.9", "1.7976931348623157", "123456789.125",
+             "0.1", "7", "-3.0000000000000004", "1.0000000000000002"]
+    exps = ["", "e-5", "e-10", "e-17", "e-20", "e-100", "e-300", "e-308", "e-320", "e5", "e16", "e17", "e22", "e100", "e300"]
+    for m in mants:
+        for e in exps:
+            text = m + e
+            try:
+                v = float(text)
+            except ValueError:
+                continue
+            if math.isinf(v):
+                continue
+            doc = [v, math.nextafter(v, math.inf), math.nextafter(v, -math.inf), 0, -v]
+            doc = [x for x in doc if not math.isinf(x)]
+            yield f"$[?@ == {text}]", doc
+            yield f"$[?@ < {text} || @ == {text}]", doc
+
+
 NUM_DOC = [0, 1, -1, 10, 12, -12, 0.5, 1.5, 100, 120, 0.1, 1e10, 5e-7, 0.05, 1.25e-6, 9007199254740991, {"a": 1}, {"a": 1000}]
 
 
@@ -424,6 +447,8 @@ def run_shard(desc):
     elif sp == "numbers":
         for q in number_queries():
             do(q, special=NUM_DOC)
+        for q, d in precise_number_queries():
+            do(q, special=d)
     elif sp == "special":
         for k in (1, 2, 3):
             for combo in itertools.product(SPECIAL, repeat=k):
